@@ -91,7 +91,7 @@ def correspondence(rep, *, prop, mod_name, driver_kind, ncases, extra=(), nontri
     jobs = [(mod_name, run_fn, rep.seed, i, tuple(extra)) for i in indices]
     # corpus: cases that exposed a seeded or past defect, replayed first on every run (any VERIF_SEED)
     ncorpus = 0
-    if only is None or only == "":
+    if (only is None or only == "") and not os.environ.get("VERIF_NO_CORPUS"):     # (the switch is for measuring the generators alone)
         cpath = os.path.join(lib.VERIF, "corpus", f"{prop}.json")
         if os.path.exists(cpath):
             import json
